@@ -55,7 +55,8 @@ def build_network(rows, limits, phases, vt, rt, partial=None):
     """build a real ChargingNetwork; rows: list of coefficient lists (may be empty)"""
     from acnportal.acnsim import ChargingNetwork, Current
     from acnportal.acnsim.models import EVSE
-    net = ChargingNetwork(violation_tolerance=vt, relative_tolerance=rt)
+    # vt is None: default-constructed network (the tolerances are then read back from it)
+    net = ChargingNetwork() if vt is None else ChargingNetwork(violation_tolerance=vt, relative_tolerance=rt)
     n = len(phases)
     for i in range(n):
         net.register_evse(EVSE("S%d" % i, max_rate=1e9, min_rate=-1e9), 208, phases[i])
@@ -350,7 +351,8 @@ def finish_cases(spec, A, L, phases, cis, X, T, mapping, mkind, colkinds, impl, 
                 amb = True
         if robust(cur, L, 1e-5, 1e-7, signed=lin) is None:
             amb = True
-        inp = dict(A=A, L=L, phases=phases, vt=spec["vt"], rt=spec["rt"], ovt=ovt, ort=ort, X=X, T=T,
+        inp = dict(A=A, L=L, phases=phases, vt=spec["vt"], rt=spec["rt"], ctor_default=bool(spec.get("ctor_default")),
+                   ovt=ovt, ort=ort, X=X, T=T,
                    mapping=[[i, r] for i, r in mapping], linear=lin, exact_tie=exact_tie)
         c = dict(input=inp, impl=impl, coq=case_coq(netc, T, X, mapping, lin, o, impl["info_shape"], ovt, ort),
                  ambiguous=amb, nontrivial=True,
@@ -440,7 +442,12 @@ def gen_block(rng):
                 cases.extend(gen_tie_cases(rng))
             return cases
         spec = rand_network_spec(rng)
-        net = build_network(spec["rows"], spec["limits"], spec["phases"], spec["vt"], spec["rt"], spec["partial"])
+        spec["ctor_default"] = (spec["vt"], spec["rt"]) == (1e-5, 1e-7) and rng.random() < 0.5
+        if spec["ctor_default"]:
+            net = build_network(spec["rows"], spec["limits"], spec["phases"], None, None, spec["partial"])
+            spec["vt"], spec["rt"] = float(net.violation_tolerance), float(net.relative_tolerance)
+        else:
+            net = build_network(spec["rows"], spec["limits"], spec["phases"], spec["vt"], spec["rt"], spec["partial"])
         itf = make_interface(net)
         A, L, ph = read_back(net)
         cis = cis_of(ph)
@@ -540,6 +547,10 @@ def monitor(case):
             cur = lin if signed else pha
             wd = robust(cur, L, 1e-5, 1e-7, signed)
             ws = decide(cur, L, vt, rt, 0, signed) if tie else robust(cur, L, vt, rt, signed)
+            default_net = inp.get("ctor_default") and inp.get("ovt") is None and inp.get("ort") is None
+            if default_net and wd is not None and ws is not None and wd != ws:
+                return "default-constructed network (tolerances %g, %g): algorithm-side check (default call) = %s, with the network's tolerances = %s (%s)" % (
+                    vt, rt, o["alg_default"], o["alg_same"], name)
             if (vt, rt) != (1e-5, 1e-7) and wd is not None and ws is not None and wd != ws:
                 return "[%s] effective network tolerances (%g, %g): algorithm-side check with its hard-coded tolerances = %s, with the network's = %s (%s)" % (
                     SIG_TOL, vt, rt, o["alg_default"], o["alg_same"], name)
@@ -563,7 +574,10 @@ def search(rng, budget_s, broken):
 
 def rerun(inp):
     A, L, ph = inp["A"], inp["L"], inp["phases"]
-    net = build_network(A or [], L, ph, inp["vt"], inp["rt"])
+    if inp.get("ctor_default"):
+        net = build_network(A or [], L, ph, None, None)
+    else:
+        net = build_network(A or [], L, ph, inp["vt"], inp["rt"])
     itf = make_interface(net)
     mapping = [(int(i), r) for i, r in inp["mapping"]]
     return run_impl(net, itf, inp["X"], inp["T"], mapping, inp.get("ovt"), inp.get("ort"))
